@@ -457,7 +457,11 @@ class MTVRP(Spec):
     sources = ("gen", "lat", "flt")
 
     def cfg(self, tier):
-        return st.tuples(self.sizes(tier), st.sampled_from(MTVRP_VARIANTS + ["all", "all", "single_feat"]),
+        # mixed-variant batches ("all", "single_feat") are where cross-row slips show: give them half of the draws
+        # explicitly (entries at the end of a long sampled_from list are under-sampled in short Hypothesis runs)
+        variants = st.one_of(st.just("all"), st.sampled_from(MTVRP_VARIANTS), st.just("single_feat"),
+                             st.sampled_from(MTVRP_VARIANTS[::-1]))
+        return st.tuples(self.sizes(tier), variants,
                          st.sampled_from([1.0, 1.0, 0.5, 0.75, 2.0]), st.booleans(), st.sampled_from([0.2, 0.2, 0.5]),
                          st.sampled_from([3.0, 3.0, 2.9, 4.0])).map(
             lambda t: {"n": t[0], "variant": t[1], "speed": t[2], "scale_demand": t[3] or t[1] in ("all",),
@@ -589,6 +593,8 @@ def episode_cases(draw, tier, names, max_b=None, sources=None):
     elif src == "tgt":
         case["lat"] = draw(spec.tight(cfg, B))
     case["rows"] = [draw(row_strategy()) for _ in range(B)]
+    # stepping mode of the driver (vf.play): the default loop of every policy, or TorchRL mode with / without look-ahead
+    case["stepping"] = draw(st.sampled_from(["default", "default", "default", "default", "torchrl", "torchrl_probe"]))
     return case
 
 
@@ -901,7 +907,7 @@ class DPP(Spec):
     name = "dpp"
     routing = False
     has_depot_action = False
-    sources = ("gen",)
+    sources = ("gen", "lat")
     multi = False
 
     def cfg(self, tier):
@@ -935,6 +941,43 @@ class DPP(Spec):
 
     def bound(self, cfg, r):
         return cfg["k"]
+
+    def lattice(self, cfg, B, exact=True):
+        """Hand-built instances in the documented reset format (locs grid, probe, action_mask).  DPP: the mask excludes
+        keep-out cells and the probing port (as the docstring of the generator states).  MDPP: the mask excludes the
+        keep-out cells only - MDPPEnv._reset documents that it removes the probing ports itself ("Action mask is 0 if
+        both action_mask (e.g. keepout) and probe are 0")."""
+        cells = cfg["size"] ** 2
+        k = cfg["k"]
+
+        @st.composite
+        def row(draw):
+            n_probe = draw(st.integers(1, 3)) if self.multi else 1
+            n_keep = draw(st.integers(0, max(0, min(8, cells - k - n_probe - 2))))
+            picked = draw(st.lists(st.integers(0, cells - 1), min_size=n_keep + n_probe, max_size=n_keep + n_probe, unique=True))
+            return {"keepout": picked[:n_keep], "probes": picked[n_keep:]}
+        return st.lists(row(), min_size=B, max_size=B).map(lambda rows: {"rows": rows})
+
+    def from_lattice(self, cfg, lat):
+        m = cfg["size"]
+        rows = lat["rows"]
+        B = len(rows)
+        g = torch.stack(torch.meshgrid(torch.arange(m), torch.arange(m), indexing="ij"), dim=-1).reshape(-1, 2)
+        locs = (g / torch.tensor([m, m], dtype=torch.float)).unsqueeze(0).repeat(B, 1, 1)
+        mask = torch.ones(B, m * m, dtype=torch.bool)
+        for b, r in enumerate(rows):
+            for c in r["keepout"]:
+                mask[b, c] = False
+        if self.multi:
+            probe = torch.zeros(B, m * m, dtype=torch.bool)
+            for b, r in enumerate(rows):
+                for c in r["probes"]:
+                    probe[b, c] = True
+        else:
+            probe = torch.tensor([[r["probes"][0]] for r in rows], dtype=torch.long)
+            for b, r in enumerate(rows):
+                mask[b, r["probes"][0]] = False
+        return TensorDict({"locs": locs, "probe": probe, "action_mask": mask}, batch_size=[B])
 
 
 class MDPP(DPP):
